@@ -1,11 +1,11 @@
 ------------------------------ MODULE TV_Style ------------------------------
 (* Batch trace validator: every step recorded from real magpylib styles is judged by the operators of Style. *)
 (* Input (ndjson, IOEnv.TRACE_FILE): one line per case (one real leaf, one history from a fresh state)       *)
-(*   {"case", "cls", "leaf", "carries": bool,                                                                *)
-(*    "clsof": {obj: class},   "has": {obj: {leaf: bool}}, "fhas": {family: {leaf: bool}},                  *)
+(*   {"case", "cls", "leaf", "carries", "checkfresh": bool,                                                  *)
+(*    "clsof": {obj: class}, "has": {obj: {leaf: bool}}, "fhas": {family: {leaf: bool}},                     *)
 (*    "def0": {family: {leaf: val}},  "init": <state>,                                                       *)
 (*    "steps": [{"tid", "op", "tgt", "src", "l", "v", "kw": {leaf: val}, "badname": bool, "notation",        *)
-(*               "outcome": "ok" | "raise", "post": <state>, "res": {obj: {leaf: val}}}]}                    *)
+(*               "outcome": "ok" | "raise", "post": <state>, "res": {obj: {leaf: val}}, "reserr"}]}          *)
 (*   <state> = {"objVal": {obj: {leaf: val}}, "def": {family: {leaf: val}}}                                  *)
 (* Abstract leaves: "l" (the real leaf under test), "m" (a sibling leaf), "rest" (digest of all other real   *)
 (* leaves of that object / family), "bad" (a name the style class does not have).  The pre-state of step k   *)
@@ -25,7 +25,10 @@ ResLeaves == {"l", "m"}
 NotRestored(post, cx) == {f \in DOMAIN post.def : post.def[f] # cx.def0[f]}
 
 \* <<property, clause>> of the first failing clause, or <<"ok", "ok">>
-Verdict(pre, cx, carries, s) ==
+\* Init of the requirement view: an object nobody has styled yet has no values of its own (witness w of the first case)
+FreshUnset(init, cx) == cx.has["w"]["l"] => init.objVal["w"]["l"] = Unset
+
+Verdict(pre, cx, carries, chkfresh, s) ==
   LET post == s.post
       call == CallOf(s)
       r == Apply(pre, cx, call)
@@ -46,18 +49,21 @@ Verdict(pre, cx, carries, s) ==
      ELSE IF \E o \in DOMAIN s.res : \E l \in ResLeaves : s.res[o][l] # Resolve(post, cx, o, l, IF r.ok THEN s.kw ELSE [k \in DOMAIN s.kw |-> Unset])
           THEN <<"C20", "Precedence">>
      \* beyond C20: the full post-state of the requirement view (copy carries the values: that is C18's claim)
+     ELSE IF s.reserr # "" THEN <<"-", "ResolveRaised">>       \* the display code raised while resolving styles in a valid state
      ELSE IF call.op = "Copy" /\ carries /\ (\E l \in ResLeaves : post.objVal[call.tgt][l] # pre.objVal[call.src][l]) THEN <<"-", "CopyCarries">>
      ELSE IF call.op # "Copy" /\ r.st # post THEN <<"-", "Post">>
+     \* beyond C20 as worded: a never-styled object already holds a value for this leaf, so its defaults can never take effect
+     ELSE IF chkfresh /\ ~FreshUnset(pre, cx) THEN <<"-", "FreshUnset">>
      ELSE <<"ok", "ok">>
 
 PreOf(e, k) == IF k = 1 THEN e.init ELSE e.steps[k - 1].post
 BadOf(i) == LET e == Trace[i]
                 cx == CxOf(e)
                 steps == e.steps
-            IN {<<steps[k].tid, Verdict(PreOf(e, k), cx, e.carries, steps[k]), steps[k].op, steps[k].notation, steps[k].outcome,
+            IN {<<steps[k].tid, Verdict(PreOf(e, k), cx, e.carries, k = 1 /\ e.checkfresh, steps[k]), steps[k].op, steps[k].notation, steps[k].outcome,
                   e.cls, e.leaf, steps[k].tgt,
                   IF steps[k].op = "Reset" THEN NotRestored(steps[k].post, cx) ELSE {}>> :
-                   k \in {k \in 1..Len(steps) : Verdict(PreOf(e, k), cx, e.carries, steps[k])[1] # "ok"}}
+                   k \in {k \in 1..Len(steps) : Verdict(PreOf(e, k), cx, e.carries, k = 1 /\ e.checkfresh, steps[k])[1] # "ok"}}
 RECURSIVE CountRange(_, _)     \* divide and conquer: recursion depth log(n)
 CountRange(lo, hi) == IF lo > hi THEN 0 ELSE IF lo = hi THEN Len(Trace[lo].steps)
                       ELSE LET mid == (lo + hi) \div 2 IN CountRange(lo, mid) + CountRange(mid + 1, hi)
